@@ -50,6 +50,7 @@ GhostInit(S) ==
    acc |-> EmptyFn,      \* key hash -> accesses delivered to the sketch in the current ageing window (system-level C14)
    accTotal |-> 0,       \* recorded accesses in the current window (TinyLFU::total_increments)
    evw |-> EmptyFn,      \* evicting actor -> id of the store entry its key had when it removed the key id from key_weights
+   delAcc |-> FALSE,     \* a delete was acknowledged as accepted in this run
    mine |-> EmptyFn,     \* actor -> the expiry the entry had right after that actor's own last store write (its in-place upsert, the worker's put)
    loose |-> FALSE,      \* (lock-grain traces) a span with several effects was seen: only the state-level judges are evaluated from here on
    desync |-> {},        \* actors whose model-inferred locals cannot be trusted until they start their next command / operation
@@ -187,6 +188,8 @@ PhantomPressure(S, a) ==
 GhostNext(G, S, a, site, inp, S2, o) ==
   LET L == S.lc[a]
       G0 == [G EXCEPT !.lookups = IF site = "C_Get" THEN @ + 1 ELSE @,
+                      !.delAcc = @ \/ \E n \in NewlyDone(S, S2) : S2.ack[n].st = StAccepted /\ n \in DOMAIN G.ackop
+                                                                     /\ G.ackop[n] \in DOMAIN G.ops /\ G.ops[G.ackop[n]].kind = "del",
                       !.desync = LET base == IF site \in {"W_Recv", "C_Idle", "S_Tick", "R_Recv"} THEN @ \ {a} ELSE @
                                  IN IF o.sync /\ o.agree THEN base ELSE base \cup {a},   \* (takes effect for the FOLLOWING steps)
                       !.adm = IF site = "A_Space" /\ a = "worker" THEN [id |-> L.id, w |-> L.w] ELSE @,
@@ -567,7 +570,8 @@ J_C08(S, a, site, inp, S2, o, G, G2) ==
             ELSE (IF HasW(op) /\ op.w < 1000000 /\ (f[2] # 4 \/ f[4] # op.w)
                   THEN <<V("C08", "violation", "", "the explicitly requested weight was not sent to the worker")>> ELSE <<>>)
     [] site = "C_PouWeightOf" /\ IsCaller(a) /\ HasW(op) /\ o.next = "C_Idle" /\ ~o.ret.panic ->
-         <<V("C08", "violation", "", "an explicitly requested weight was dropped")>>
+         <<V("C08", "violation", "", "an explicitly requested weight was dropped"),
+           V("C11", "violation", "", "a write the API accepted was neither queued nor applied (a weight update answered on the spot): the calls are not applied in the order they were made")>>
     [] site = "K_Update" /\ a = "worker" /\ Sync(G, a, site, o) /\ L.id \in DOMAIN S.kw /\ (L.id \notin DOMAIN S2.kw \/ S2.kw[L.id].w # L.w) ->
          <<V("C08", "violation", "", "the acknowledged weight update is not the key's charged weight")>>
     [] OTHER -> <<>>
@@ -641,6 +645,9 @@ J_C04q(S, a, site, inp, S2, o, G, G2) ==
   ELSE IF \E k \in DOMAIN S2.store : S2.store[k].soft
        THEN <<V("C07", "violation", "", "an entry marked as deleted stays in the store when no operation is in flight: the key reads as absent but every put of it is refused as existing"),
               V("C04", "violation", "", "a delete completed but its entry (marked as deleted) is still in the store")>>
+       ELSE IF G2.delAcc /\ G2.taintK = EmptyFn /\ G2.stale = EmptyFn
+               /\ SumSet([id \in DOMAIN S2.kw |-> S2.kw[id].w], DOMAIN S2.kw) # S2.used
+       THEN <<V("C04", "violation", "", "after accepted deletes, with nothing in flight, weight is counted that no held key owns: a deleted key's weight was not released completely")>>
        ELSE <<>>
 
 \* C10 at quiescence: every live entry with a deadline is registered in the index under that deadline
@@ -771,7 +778,7 @@ HugeAround(S, a) == S.lc[a].w >= Huge \/ S.lc[a].op.w >= Huge \/ S.used >= Huge 
 
 J_C17(S, a, site, inp, S2, o, G, G2) ==
   (IF o.next = "DEAD" /\ a \in {"worker", "sweeper", "consumer"}
-   THEN IF HugeAround(S, a) /\ site \in {"K_Update", "K_AddUsed", "K_DelUsed"}
+   THEN IF HugeAround(S, a) /\ site \in {"K_Update", "K_DelUsed"}
         THEN <<V("C17", "known", "D10", "unchecked i64 weight arithmetic overflowed on a background thread")>>
         ELSE <<V("C17", "violation", "", "a background thread terminated by a panic")>> ELSE <<>>)
   \o (IF IsCaller(a) /\ o.next \in {"C_Idle", "DEAD"} /\ o.ret.panic
@@ -801,7 +808,8 @@ JudgeEnd(S, G, stuck) ==
   IN (IF pending # {} /\ ~workerPanicked /\ G.shutDone
       THEN <<V("C13", "violation", "", "an acknowledgement handed out before or during shutdown never completed")>> ELSE <<>>)
      \o (IF pending # {} /\ ~workerPanicked /\ ~G.shutSeen
-         THEN <<V("C11", "violation", "", "a queued command was never applied: its acknowledgement is still pending at the end of the run")>> ELSE <<>>)
+         THEN <<V("C11", "violation", "", "a queued command was never applied: its acknowledgement is still pending at the end of the run"),
+                V("C12", "violation", "", "an acknowledgement never resolves: it is still pending when every thread is idle and the worker is alive")>> ELSE <<>>)
      \o (IF ~S.shut /\ ~G.shutSeen /\ ~workerPanicked /\ pending = {} /\ \E k \in G.absent : Present(S, k)
          THEN <<V("C11", "violation", "", "put followed by delete of the same key (same thread) left the key present")>> ELSE <<>>)
 
